@@ -64,14 +64,19 @@ TEXTS = {
                      'size-bounded contextual functions). Bounded: interpreter-step counts (sys.monitoring) on 23 input families at n,2n,4n,8n '
                      'with growth factor <= 6. Known finding: commented dict nesting is exponential.',
                 note=_ENC + 'a contract cannot state a complexity class: the growth law is monitored only.'),
-    'C13': dict(category='other', engine='bounded', technique=_BOUNDED,
-                text='Bounded-exhaustive: every rooted graph of list/dict/tuple-holding-list nodes up to 3 (4) nodes up to isomorphism, random up '
-                     'to 10 nodes, user nodes with failing printers: markers exactly at back edges, shared nodes in full, no residue.',
-                note='reference DFS as oracle.'),
-    'C14': dict(category='other', engine='bounded', technique=_BOUNDED + ' (single-fault enumeration)',
-                text='Bounded: every single fault position x 6 exception classes x {plain, under trailing comment, list under trailing comment} x '
-                     'printers accepting / not accepting trailing_comment on all trees of <= 4 (5) printer invocations; bad return values; sampled pairs.',
-                note='AST of the fault-free print as oracle.'),
+    'C13': dict(category='other', engine='pyvc+bounded', technique=_PYVC + '; ' + _BOUNDED,
+                text='Proved for a symbolic printer, value and exception class (59 obligations): _run_pretty restores the visited set on every '
+                     'normal and exceptional exit, returns the marker iff the id is on the path, set.remove never fails. Bounded-exhaustive: '
+                     'every rooted graph of list/dict/tuple nodes up to 3 (4) nodes up to isomorphism, random up to 10 nodes, failing user '
+                     'printers: markers exactly at back edges, shared nodes in full, no residue; plus exhaustive PrettyContext contracts.',
+                note=_ENC + 'assumed: printers restore visited themselves (frame), id() injective on live objects; termination of the '
+                     'recursion over the object graph is bounded only.'),
+    'C14': dict(category='other', engine='pyvc+bounded', technique=_PYVC + '; ' + _BOUNDED + ' (single-fault enumeration)',
+                text='Proved for EVERY exception class (symbolic class with subclass predicates) and every printer: a failure derived from '
+                     'Exception is contained (repr, exactly one warning, at most two attempts), only non-Exception classes and the '
+                     'invalid-result error escape, with and without trailing comment, signature-mismatch path included. Bounded: every '
+                     'single fault position x 6 classes x wraps on all trees of <= 4 (5) invocations: siblings/ancestors unchanged.',
+                note=_ENC + 'the warning text and that ancestors are unaffected are bounded only; _warn_about_bad_printer is a trusted straight-line contract.'),
     'C15': dict(category='other', engine='bounded', technique=_BOUNDED,
                 text='Bounded-exhaustive: all operation histories of length <= 3 (4) over 60 operations on a 5-class lattice with a diamond, '
                      'random histories up to length 12, against the reference dispatch rule of the statement.',
